@@ -21,7 +21,9 @@ THEOREMS = ["pure_ok_sound", "pure_ok_sound_all_caller_objects", "pure_ok_reject
 RULE = ("static: one regenerated obligation per public entry point of the current tree. dynamic: seeded "
         "cases per entry point over classes {random float diagrams, integer-valued diagrams in all three "
         "forms, infinite deaths, empty / single point, skew on/off, kernels/weights, landscape "
-        "arithmetic, graphs as list/dense/CSR}; a case is non-trivial when the call returned a value "
+        "arithmetic, graphs as list/dense/CSR} + call-order families (same diagrams x secondary parameters, equal "
+        "total size with different splits, both argument orders) evaluated forward / reversed / shuffled in fresh "
+        "interpreters and 3x with junk allocations in between, results identical at tolerance 0; a case is non-trivial when the call returned a value "
         "(no exception) on at least one non-empty array/list argument, so that there was something to "
         "mutate; distinct = distinct (entry point, JSON input)")
 TRUSTED_BASE = [
@@ -722,12 +724,170 @@ class _Audit:
             setattr(m, k, v)
 
 
+
+# ================================================================================================
+# cross-process CALL-ORDER INDEPENDENCE monitor
+# ================================================================================================
+# A case {"ep": "call_order", "items": [...]} is a structured family of calls to pure public functions
+# (the same diagrams crossed with different secondary parameters, equal total sizes with different
+# splits, both argument orders).  The list is evaluated
+#   run 0: in order, in a fresh interpreter;
+#   run 1: reversed, in another fresh interpreter;
+#   run 2: shuffled, in a third one;
+#   run 3: in order, three times over, with unrelated allocations (filled with junk, then freed)
+#          between the calls - stale contents of an uninitialised buffer differ between the rounds.
+# Every item must give the identical result (tolerance 0, nan == nan) in every run and round: a result
+# that depends on what was called before (a module-level cache keyed too coarsely, a reused scratch
+# matrix, an np.empty buffer) differs in at least one of them, although "call twice and compare" passes.
+def _order_funcs():
+    import sys
+    import numpy as np
+    import persim
+    from persim import images_kernels as K, images_weights as W
+    from persim.persistent_entropy import persistent_entropy
+    from persim.landscapes import PersLandscapeExact, PersLandscapeApprox, PersistenceLandscaper
+    from persim.landscapes import tools as lt
+    gh = sys.modules["persim.gromov_hausdorff"]
+
+    def A(d):
+        return _conv(d, "float")
+
+    def ctor(a):
+        kw = dict(a.get("ctor", {}))
+        for k in ("birth_range", "pers_range"):
+            if k in kw:
+                kw[k] = tuple(kw[k])
+        return persim.PersistenceImager(**kw)
+
+    def mgh(a):
+        np.random.seed(a["np_seed"])
+        return gh.gromov_hausdorff(np.array(a["g1"]), np.array(a["g2"]))
+
+    def arr(v):
+        return np.array(v, dtype=float)
+
+    return {
+        "bottleneck": lambda a: persim.bottleneck(A(a["d1"]), A(a["d2"]), matching=a.get("matching", False)),
+        "wasserstein": lambda a: persim.wasserstein(A(a["d1"]), A(a["d2"]), matching=a.get("matching", False)),
+        "heat": lambda a: persim.heat(A(a["d1"]), A(a["d2"]), sigma=a["sigma"]),
+        "sliced_wasserstein": lambda a: persim.sliced_wasserstein(A(a["d1"]), A(a["d2"]), M=a["M"]),
+        "persistent_entropy": lambda a: persistent_entropy([A(d) for d in a["dgms"]], keep_inf=a.get("keep_inf", False),
+                                                           val_inf=a.get("val_inf"), normalize=a.get("normalize", False)),
+        "bvn_cdf": lambda a: K.bvn_cdf(arr(a["x"]), arr(a["y"]), mu_x=a["mu"][0], mu_y=a["mu"][1], sigma_xx=a["sxx"],
+                                       sigma_yy=a["syy"], sigma_xy=a["sxy"]),
+        "gaussian": lambda a: K.gaussian(arr(a["x"]), arr(a["y"]), mu=arr(a["mu"]), sigma=arr(a["sigma"])),
+        "uniform": lambda a: K.uniform(arr(a["x"]), arr(a["y"]), mu=arr(a["mu"]), width=a["width"], height=a["height"]),
+        "linear_ramp": lambda a: W.linear_ramp(arr(a["x"]), arr(a["y"]), **a["params"]),
+        "persistence": lambda a: W.persistence(arr(a["x"]), arr(a["y"]), n=a["n"]),
+        "imager_transform": lambda a: ctor(a).transform([A(d) for d in a["dgms"]], skew=a.get("skew", True)),
+        "imager_fit_transform": lambda a: ctor(a).fit_transform([A(d) for d in a["dgms"]], skew=a.get("skew", True)),
+        "exact_pnorm": lambda a: PersLandscapeExact(dgms=[A(a["d1"])], hom_deg=0).p_norm(a["p"]),
+        "exact_pairs": lambda a: PersLandscapeExact(dgms=[A(a["d1"])], hom_deg=0).critical_pairs,
+        "exact_add": lambda a: (PersLandscapeExact(dgms=[A(a["d1"])], hom_deg=0) + PersLandscapeExact(dgms=[A(a["d2"])], hom_deg=0)).critical_pairs,
+        "approx_values": lambda a: PersLandscapeApprox(dgms=[A(a["d1"])], hom_deg=0, start=a.get("start"), stop=a.get("stop"),
+                                                       num_steps=a["num_steps"]).values,
+        "approx_pnorm": lambda a: PersLandscapeApprox(dgms=[A(a["d1"])], hom_deg=0, start=a.get("start"), stop=a.get("stop"),
+                                                      num_steps=a["num_steps"]).p_norm(a["p"]),
+        "landscaper": lambda a: PersistenceLandscaper(hom_deg=0, start=a.get("start"), stop=a.get("stop"), num_steps=a["num_steps"],
+                                                      flatten=a.get("flatten", False)).fit_transform([A(a["d1"])]),
+        "vectorize": lambda a: lt.vectorize(PersLandscapeExact(dgms=[A(a["d1"])], hom_deg=0), start=a.get("start"), stop=a.get("stop"),
+                                            num_steps=a["num_steps"]).values,
+        "death_vector": lambda a: lt.death_vector([A(a["d1"])], hom_deg=0),
+        "gromov_hausdorff": mgh,
+    }
+
+
+def order_child(jobs):
+    """Runs in a FRESH interpreter: jobs = [{"items", "order", "rounds", "churn"}] -> per job, per round,
+    {original index: canonical result}."""
+    import warnings
+    import numpy as np
+    warnings.simplefilter("ignore")
+    F = _order_funcs()
+    out = []
+    for job in jobs:
+        rounds = []
+        for rnd in range(job.get("rounds", 1)):
+            res = {}
+            for i in job["order"]:
+                it = job["items"][i]
+                if job.get("churn"):
+                    # unrelated allocations of many small sizes, filled with junk and freed again: the next
+                    # uninitialised buffer of such a size is handed these bytes
+                    junk = [np.full(n, 7.5 + rnd + 0.25 * i) for n in list(range(1, 70)) + [128, 256, 512]]
+                    junk2 = [np.full((n, m), -3.25 - rnd) for n in range(1, 12) for m in range(1, 12)]
+                    del junk, junk2
+                try:
+                    res[str(i)] = ["ok", _canon(F[it["fn"]](it["args"]))]
+                except Exception as e:
+                    res[str(i)] = ["err", type(e).__name__]
+            rounds.append(res)
+        out.append(rounds)
+    return out
+
+
+def _spawn_order_child(jobs):
+    import subprocess
+    import sys
+    p = subprocess.run([sys.executable, "-m", "harness.impl_runner", "c19", "order_child"], input=json.dumps(jobs),
+                       capture_output=True, text=True, cwd=str(core.VERIF), timeout=900)
+    if p.returncode != 0:
+        raise RuntimeError("order child failed: " + p.stderr[-500:])
+    return json.loads(p.stdout.strip().split("\n")[-1])
+
+
+def _run_order_case(c):
+    import random as _r
+    n = len(c["items"])
+    fwd = list(range(n))
+    shuf = list(fwd)
+    _r.Random(c.get("shuffle_seed", 0)).shuffle(shuf)
+    plans = [("forward", {"order": fwd, "rounds": 1}), ("reversed", {"order": fwd[::-1], "rounds": 1}),
+             ("shuffled", {"order": shuf, "rounds": 1}), ("forward-x3-with-allocations", {"order": fwd, "rounds": 3, "churn": True})]
+    from concurrent.futures import ThreadPoolExecutor
+    with ThreadPoolExecutor(max_workers=4) as ex:
+        futs = [ex.submit(_spawn_order_child, [dict(pl, items=c["items"])]) for _, pl in plans]
+        runs = [f.result()[0] for f in futs]
+    ref = runs[0][0]
+    bad, n_ok = [], 0
+    for i in range(n):
+        r0 = ref[str(i)]
+        n_ok += r0[0] == "ok"
+        for (label, _), rounds in zip(plans, runs):
+            for k, res in enumerate(rounds):
+                r = res[str(i)]
+                if r[0] != r0[0] or (r0[0] == "ok" and not _same(r0[1], r[1], 0)) or (r0[0] == "err" and r0[1] != r[1]):
+                    fl0, fl1 = (_flat(r0[1], [])[:3], _flat(r[1], [])[:3]) if r0[0] == "ok" and r[0] == "ok" else (r0, r)
+                    bad.append({"item": i, "fn": c["items"][i]["fn"], "run": label, "round": k, "fresh_forward": fl0, "this_run": fl1})
+                    break
+            else:
+                continue
+            break
+    return {"order_bad": bad[:8], "n_items": n, "n_ok": n_ok, "runs": [p[0] for p in plans],
+            "mutated": [], "repeat_bad": [], "rep_bad": [], "forms_ok": ["float"] if n_ok else [], "nonempty_args": n_ok >= 2}
+
+
 def impl_run(cases):
     import warnings
     warnings.simplefilter("ignore")
     E = _eps()
     outs = []
-    for c in cases:
+    order_idx = [i for i, c in enumerate(cases) if c["ep"] == "call_order"]
+    order_out = {}
+    if order_idx:
+        from concurrent.futures import ThreadPoolExecutor
+
+        def one(i):
+            try:
+                return i, _run_order_case(cases[i])
+            except Exception as e:
+                return i, {"error": type(e).__name__, "msg": str(e)[:300]}
+        with ThreadPoolExecutor(max_workers=4) as ex:
+            order_out = dict(ex.map(one, order_idx))
+    for i, c in enumerate(cases):
+        if i in order_out:
+            outs.append(order_out[i])
+            continue
         try:
             outs.append(_run_case(c, E))
         except Exception as e:
@@ -735,7 +895,7 @@ def impl_run(cases):
     # second pass: the same calls with the table audit switched on (float form only)
     if os.environ.get("C19_NO_AUDIT") != "1":
         for c, o in zip(cases, outs):
-            if "error" in o:
+            if "error" in o or c["ep"] == "call_order":
                 continue
             au = _Audit().install()
             try:
@@ -754,6 +914,10 @@ def predicate(c, o):
     ep = c["ep"]
     if "error" in o:
         return False, "harness-error ep=%s: %s %s" % (ep, o["error"], o.get("msg"))
+    if o.get("order_bad"):
+        b = o["order_bad"][0]
+        return False, ("call-order fn=%s: the result of item %d depends on what was called before it (run '%s', round %d: %s, "
+                       "fresh interpreter in list order: %s)" % (b["fn"], b["item"], b["run"], b["round"], b["this_run"], b["fresh_forward"]))
     if o["mutated"]:
         return False, "mutation ep=%s: argument objects changed by the call: %s" % (ep, ", ".join(o["mutated"][:6]))
     if o["repeat_bad"]:
@@ -780,6 +944,9 @@ def coq_judge(cases, outs, results):
     for c, o in zip(cases, outs):
         if "error" in o:
             vs.append("skip:harness error")
+        elif c["ep"] == "call_order":
+            vs.append("agree" if not o.get("order_bad") or _FAILED else
+                      "disagree:all obligations discharged but a result depends on the call order: %s" % o["order_bad"][0]["fn"])
         elif o["mutated"] and c["ep"] not in failed:
             vs.append("disagree:obligations discharged but the call changed %s" % o["mutated"][:3])
         else:
@@ -936,6 +1103,102 @@ def _make(rng, ep, cls):
     return c
 
 
+
+# ---- structured families for the call-order monitor -------------------------------------------------
+ORDER_KINDS = ["heat", "splits", "sliced", "bvn", "kernels_weights", "imager", "landscapes", "entropy", "mgh", "mixed"]
+
+
+def _order_items(rng, kind):
+    it = []
+
+    def add(fn, **a):
+        it.append({"fn": fn, "args": a})
+    integral = rng.random() < 0.5
+    a_n = rng.randint(1, 4)
+    b_n = a_n + rng.randint(1, 3)
+    A, B = _dgm(rng, a_n, integral), _dgm(rng, b_n, integral)
+    tot = a_n + b_n
+    c_n = rng.choice([k for k in range(1, tot) if k not in (a_n, b_n)] or [1])
+    C, D = _dgm(rng, c_n, integral), _dgm(rng, tot - c_n, integral)
+    if kind in ("heat", "mixed"):
+        for sg in [0.4, 1, 1.0, 2, 0.1, 2.0]:
+            add("heat", d1=A, d2=B, sigma=sg)
+        add("heat", d1=B, d2=A, sigma=0.4); add("heat", d1=A, d2=A, sigma=1); add("heat", d1=A, d2=C, sigma=0.4)
+    if kind in ("splits", "mixed"):
+        for fn in ("bottleneck", "wasserstein"):
+            for m in (False, True):
+                for x, y in ((A, B), (B, A), (C, D), (D, C), (A, A), (B, D)):
+                    add(fn, d1=x, d2=y, matching=m)
+            add(fn, d1=A + [[0.5, "inf"]], d2=B, matching=False)
+    if kind in ("sliced", "mixed"):
+        for M in (1, 5, 10, 50):
+            add("sliced_wasserstein", d1=A, d2=B, M=M); add("sliced_wasserstein", d1=B, d2=A, M=M)
+        add("sliced_wasserstein", d1=C, d2=D, M=5)
+    if kind in ("bvn", "mixed"):
+        for n in (rng.randint(2, 6), rng.randint(7, 20)):
+            x = [rng.uniform(-1, 2) for _ in range(n)]; y = [rng.uniform(-1, 2) for _ in range(n)]
+            mu = [rng.uniform(0, 1), rng.uniform(0, 1)]
+            for v, r in ((1.0, 0.0), (1.0, 0.5), (0.01, 0.93), (0.01, 0.95), (0.01, -0.95), (0.0025, 0.99), (1.0, 0.95), (4.0, -0.925), (0.04, 0.3)):
+                add("bvn_cdf", x=x, y=y, mu=mu, sxx=v, syy=v, sxy=r * v)
+                add("gaussian", x=x, y=y, mu=mu, sigma=[[v, r * v], [r * v, v]])
+    if kind in ("kernels_weights", "mixed"):
+        n = rng.randint(2, 6)
+        x = [rng.uniform(-1, 3) for _ in range(n)]; y = [rng.uniform(0, 3) for _ in range(n)]
+        for w, h in ((1, 1), (1.5, 0.5), (0.5, 2), (2.0, 2)):
+            add("uniform", x=x, y=y, mu=[0.5, 0.5], width=w, height=h)
+        for pr in ({"low": 0.0, "high": 1.0, "start": 0.0, "end": 1.0}, {"low": 0.0, "high": 2.0, "start": 0.5, "end": 3.0},
+                   {"low": 1, "high": 2, "start": 0, "end": 2}):
+            add("linear_ramp", x=x, y=y, params=pr)
+        for e in (1, 1.0, 2, 0.5, 3.0):
+            add("persistence", x=x, y=y, n=e)
+    if kind in ("imager", "mixed"):
+        dg = [A, B]
+        ctors = [{"pixel_size": 0.5}, {"pixel_size": 1.0}, {"pixel_size": 0.5, "birth_range": [0.0, 4.0], "pers_range": [0.0, 3.0]},
+                 {"pixel_size": 0.5, "kernel_params": {"sigma": [[1.0, 0.0], [0.0, 1.0]]}},
+                 {"pixel_size": 0.5, "kernel_params": {"sigma": [[0.01, 0.0095], [0.0095, 0.01]]}},
+                 {"pixel_size": 0.5, "kernel_params": {"sigma": [[0.04, -0.038], [-0.038, 0.04]]}},
+                 {"pixel_size": 0.5, "kernel_params": {"sigma": [[1.0, 0.5], [0.5, 2.0]]}},
+                 {"pixel_size": 0.5, "kernel": "uniform", "kernel_params": {"width": 1.0, "height": 0.5}},
+                 {"pixel_size": 0.5, "weight": "linear_ramp", "weight_params": {"low": 0.0, "high": 1.0, "start": 0.0, "end": 2.0}},
+                 {"pixel_size": 0.5, "weight_params": {"n": 2.0}}]
+        for ct in ctors:
+            add("imager_transform", dgms=dg, ctor=ct, skew=True)
+        add("imager_transform", dgms=[B, A], ctor=ctors[0], skew=True)
+        add("imager_transform", dgms=dg, ctor=ctors[0], skew=False)
+        add("imager_fit_transform", dgms=dg, ctor=ctors[0], skew=True)
+        add("imager_fit_transform", dgms=[C, D], ctor=ctors[4], skew=True)
+    if kind in ("landscapes", "mixed"):
+        for pp in (1, 2, 2.0, 3, -1):
+            add("exact_pnorm", d1=A, p=pp); add("exact_pnorm", d1=B, p=pp)
+        add("exact_pairs", d1=A); add("exact_pairs", d1=B); add("exact_add", d1=A, d2=B); add("exact_add", d1=B, d2=A)
+        for st, sp, ns in ((None, None, 10), (None, None, 21), (0.0, 12.0, 13), (0, 12, 25), (-1.0, 9.0, 13), (0.0, 12.0, 10)):
+            add("approx_values", d1=A, start=st, stop=sp, num_steps=ns)
+            add("approx_values", d1=B, start=st, stop=sp, num_steps=ns)
+            add("approx_pnorm", d1=A, start=st, stop=sp, num_steps=ns, p=2)
+            add("landscaper", d1=A, start=st, stop=sp, num_steps=ns, flatten=bool(ns % 2))
+            add("vectorize", d1=A, start=st, stop=sp, num_steps=ns)
+        add("death_vector", d1=A); add("death_vector", d1=B)
+    if kind in ("entropy", "mixed"):
+        Ai = A + [[0.25, "inf"]]
+        for kw in ({}, {"normalize": True}, {"keep_inf": True, "val_inf": 10.0}, {"keep_inf": True, "val_inf": 20}):
+            add("persistent_entropy", dgms=[Ai, B], **kw); add("persistent_entropy", dgms=[B, Ai], **kw)
+        add("persistent_entropy", dgms=[A]); add("persistent_entropy", dgms=[C, D])
+    if kind in ("mgh",):
+        g1, g2, g3 = _graph(rng, rng.randint(3, 5)), _graph(rng, rng.randint(4, 6)), _graph(rng, rng.randint(3, 5))
+        for sd in (1, 2, 1):
+            add("gromov_hausdorff", g1=g1, g2=g2, np_seed=sd); add("gromov_hausdorff", g1=g2, g2=g1, np_seed=sd)
+        add("gromov_hausdorff", g1=g1, g2=g3, np_seed=1); add("gromov_hausdorff", g1=g3, g2=g3, np_seed=3)
+    if kind == "mixed":
+        rng.shuffle(it)
+        it = it[:60]
+    return it
+
+
+def _order_case(rng, kind):
+    return {"ep": "call_order", "cls": "order:" + kind, "kind": kind, "items": _order_items(rng, kind),
+            "shuffle_seed": rng.randrange(10 ** 6), "reps": ["float"], "integral": False}
+
+
 EP_NAMES = ["bottleneck", "wasserstein", "heat", "sliced_wasserstein", "persistent_entropy",
             "PersistenceImager.fit", "PersistenceImager.transform", "PersistenceImager.fit_transform",
             "PersistenceImager.config", "PersistenceImager.plot_diagram", "PersistenceImager.plot_image",
@@ -983,6 +1246,9 @@ def generate(rng, tier):
         for i in range(k):
             cls = CLASSES[i % len(CLASSES)] if i < len(CLASSES) else rng.choice(CLASSES)
             cases.append(_make(rng, ep, cls))
+    for kind in ORDER_KINDS:
+        for _ in range(1 if tier == "quick" else 6):
+            cases.append(_order_case(rng, kind))
     return cases
 
 
@@ -1007,6 +1273,9 @@ def search_generate(rng, n):
             if "lifetime" in c:
                 c["lifetime"] = True
             cases.append(c)
+    for kind in ORDER_KINDS:
+        for _ in range(2):
+            cases.append(_order_case(rng, kind))
     return cases
 
 
@@ -1031,6 +1300,15 @@ def canonical(c):
 
 
 def shrink_candidates(c):
+    if c["ep"] == "call_order":
+        it = c["items"]
+        if len(it) > 2:
+            for half in (it[:len(it) // 2], it[len(it) // 2:], it[::2], it[1::2]):     # big steps first
+                if 2 <= len(half) < len(it):
+                    d = dict(c); d["items"] = half; yield d
+            for j in range(len(it)):
+                d = dict(c); d["items"] = it[:j] + it[j + 1:]; yield d
+        return
     if len(c.get("ops", [])) > 1:
         for j in range(len(c["ops"])):
             d = dict(c); d["ops"] = c["ops"][:j] + c["ops"][j + 1:]; yield d
